@@ -279,6 +279,31 @@ pub fn get_navigation_node_from_braille_position(mathml: Element, position: usiz
     set_preference("BrailleNavHighlight".to_string(), "EndPoints".to_string()).unwrap();
 
     N_PROBES.with(|n| {*n.borrow_mut() = 0});
+    #[cfg(mathcat_verif)]
+    if verif::route_dump_wanted() {
+        // verification hook: what the search below will see -- for every element its id, whether it is a leaf, the cells
+        // the braille gives it (highlighted alone) and the estimate that guides the guesses
+        fn dump<'e>(mathml: Element<'e>, node: Element<'e>, n_ind: usize, out: &mut Vec<(String, bool, usize, usize, usize, usize)>, blen: &mut usize) -> Result<()> {
+            let id = node.attribute_value("id").unwrap_or("").to_string();
+            let (braille, start, end) = braille_mathml(mathml, &id)?;
+            *blen = braille.len()/3;
+            let leaf = is_leaf(node);
+            let n_kids = if leaf {0} else {node.children().len()};
+            out.push((id, leaf, start, end, estimate_braille_chars(ChildOfElement::Element(node), n_ind), n_kids));
+            if !leaf {
+                for child in node.children() {
+                    dump(mathml, as_element(child), n_ind, out, blen)?;
+                }
+            }
+            return Ok(());
+        }
+        let n_ind = if PreferenceManager::get().borrow().pref_to_string("BrailleCode") == "Nemeth" {0} else {1};
+        let mut out = vec![];
+        let mut blen = 0;
+        if dump(mathml, as_element(mathml.children()[0]), n_ind, &mut out, &mut blen).is_ok() {
+            verif::store_route_dump(mathml.attribute_value("id").unwrap_or("").to_string(), blen, out);
+        }
+    }
     // dive into the child of the <math> element (should only be one)
     let search_state = find_navigation_node(mathml, as_element(mathml.children()[0]), position);
     set_preference("BrailleNavHighlight".to_string(), saved_highlight_style.to_string()).unwrap();
@@ -2980,6 +3005,23 @@ pub mod verif {
     pub const HIGHLIGHT_HOOK: &str = "\u{F8FF}verif-highlight:";
     /// this nav node id makes braille_mathml return the rule output before the per-code clean-up
     pub const RAW_HOOK: &str = "\u{F8FF}verif-raw";
+
+    thread_local!{
+        static ROUTE_DUMP_WANTED: std::cell::Cell<bool> = const { std::cell::Cell::new(false) };
+        #[allow(clippy::type_complexity)]
+        static ROUTE_DUMP: std::cell::RefCell<Option<(String, usize, Vec<(String, bool, usize, usize, usize, usize)>)>> = const { std::cell::RefCell::new(None) };
+    }
+    /// ask the next cursor-routing calls to record the annotated tree their search works on
+    pub fn want_route_dump(on: bool) { ROUTE_DUMP_WANTED.with(|w| w.set(on)); }
+    pub fn route_dump_wanted() -> bool { return ROUTE_DUMP_WANTED.with(|w| w.get()); }
+    pub fn store_route_dump(math_id: String, blen: usize, nodes: Vec<(String, bool, usize, usize, usize, usize)>) {
+        ROUTE_DUMP.with(|d| *d.borrow_mut() = Some((math_id, blen, nodes)));
+    }
+    /// (id of <math>, number of braille cells, preorder list of (id, is leaf, start, end, estimate, number of children))
+    #[allow(clippy::type_complexity)]
+    pub fn take_route_dump() -> Option<(String, usize, Vec<(String, bool, usize, usize, usize, usize)>)> {
+        return ROUTE_DUMP.with(|d| d.borrow_mut().take());
+    }
 
     /// highlight_braille_chars(braille, code, fill_range) -> (braille, start, end)
     pub fn highlight_chars(braille: &str, braille_code: &str, fill_range: bool) -> Result<(String, usize, usize)> {
